@@ -6,7 +6,8 @@ from verifkit import Infra, read_ndjson, write_ndjson
 
 PROBLEMS = [("restart_error", "restart-failed"), ("incomplete", "best-incomplete"), ("state_diff", "state-differs"),
             ("logs_diff", "logdb-differs"), ("finality_contradiction", "finality-contradiction"),
-            ("diverged", "resume-diverges"), ("import_errors", "import-error-after-crash"), ("tx_lookup", "tx-lookup-inconsistent")]
+            ("diverged", "resume-diverges"), ("import_errors", "import-error-after-crash"), ("tx_lookup", "tx-lookup-inconsistent"),
+            ("broadcast", "broadcast-before-durable"), ("own_diff", "own-block-differs-after-restart")]
 
 
 def run_stream(ctx, binp, seed, blocks, maxcuts, double):
